@@ -342,13 +342,18 @@ func checkC16(c *Ctx) Meta {
 		// the announced size: the header decoder, or the big-endian read itself where the decoder was folded in
 		sizeIDs := []string{pkgConn + ".bytesToMsgSize", "(encoding/binary.bigEndian).Uint32"}
 		var makes []ssa.Instruction
-		allInstrs(f, func(in ssa.Instruction) {
+		allInstrsNew(f, func(in ssa.Instruction) {
 			if ms, ok := in.(*ssa.MakeSlice); ok {
 				if backSlice(ms.Len).hasCallTo(sizeIDs...) {
 					makes = append(makes, in)
 				}
 			}
 		})
+		if len(makes) > 0 {
+			// reading one frame may sit in a helper the reference tree does not have: the bound is judged
+			// in the function that allocates
+			f = hostFn(f, makes[0])
+		}
 		tests := cmpTests(f, func(bo *ssa.BinOp) bool {
 			if bo.Op != token.GTR && bo.Op != token.LSS && bo.Op != token.GEQ && bo.Op != token.LEQ {
 				return false
